@@ -10,7 +10,8 @@ RULE = ("host configurations generated from one PRNG and built in fresh anonymou
         "blackhole/multipath, metrics incl. ties and >= 2^31-1; 0-2 IPv6 default routes with lower and higher metrics on the "
         "same and on other interfaces); per configuration 6-8 targets (attached net/host, "
         "supernet, subnet, fixed, none, IPv6) x all 8 combinations of --iface/--srcip/--srcmac x 2 entry points "
-        "(getScanRange, ipScanCmdOpts.parseOptions) + real arp / icmp command runs observed on the wire (veth peer, tun fd); non-trivial = the option "
+        "(getScanRange, ipScanCmdOpts.parseOptions) + real command runs observed on the wire (veth peer, tun fd): arp and every ip-level command (icmp, udp, tcp, tcp syn, "
+        "tcp --flags, tcp fin/null/xmas); non-trivial = the option "
         "code accepted the input (an interface and a source were chosen); distinct by (configuration, case number)")
 
 CODES = {1: "error class differs from the model", 2: "chosen interface differs from the model",
@@ -19,7 +20,11 @@ CODES = {1: "error class differs from the model", 2: "chosen interface differs f
          7: "ip.ParseIPNet accepts / refuses / returns something else than the model of it"}
 
 ERRCODE = {"": 0, "srciface": 1, "srcip": 2, "srcmac": 3, "badtarget": 4}
-ENTRY = ["getScanRange", "parseOptions", "arp command on the wire", "icmp command on the wire"]
+ENTRY = ["getScanRange", "parseOptions", "arp command on the wire", "ip-level command on the wire"]
+
+
+def entry_name(o):
+    return "`sx %s` on the wire" % (o.get("cmd") or "icmp") if o["entry"] == 3 else ENTRY[o["entry"]]
 V4IN6 = bytes([0] * 10 + [255, 255])
 MAXINT32 = 2 ** 31 - 1
 
@@ -215,6 +220,10 @@ def spec_on_impl(cfg, o):
         return None
     if o["err"] == "wire-noframes":
         exp = expected(cfg, o)
+        if exp[0] == "ok" and exp[3] is None and o["entry"] == 3:
+            return ("wire-noframes", "`sx %s` reports success but no raw-IP framed probe left through %s, the interface "
+                                     "without hardware address the options select (source %s)" % (
+                                         o.get("cmd") or "icmp", exp[1]["name"], ".".join(str(x) for x in exp[2])))
         return ("wire-noframes", "the command reports success but no probe left any interface" + (
             "; the property demands an error: " + exp[1] if exp[0] == "err" else ""))
     if o["err"] == "wire-garbage":
@@ -287,7 +296,7 @@ def flags_of(o):
 
 def report(ctx, cfg, o, key, why):
     spec = {"id": cfg["id"], "seed": cfg["seed"], "class": cfg["class"], "cmds": cfg["cmds"],
-            "cases": [{k: o[k] for k in ("entry", "iface", "srcip", "srcmac", "target", "tclass")}]}
+            "cases": [{k: o[k] for k in ("entry", "iface", "srcip", "srcmac", "target", "tclass", "cmd") if k in o}]}
     tag = "cfg%d-case%d" % (cfg["id"], o["n"])
     path = ctx.write_replay(tag, {
         "property": "C17", "what": why, "key": key, "spec": spec,
@@ -343,7 +352,8 @@ def run(ctx):
         ctx.info.append("configurations %s kept changing while measured; their cases are dropped" % unstable)
         cases = [o for o in cases if o["id"] not in unstable]
     for o in cases:
-        cls = "%s/entry%d/flags=%s/%s" % (o["tclass"], o["entry"], flags_of(o), o["err"] or "ok")
+        cls = "%s/entry%d%s/flags=%s/%s" % (o["tclass"], o["entry"], ":" + o["cmd"].replace("/", "") if o.get("cmd") else "",
+                                           flags_of(o), o["err"] or "ok")
         ctx.count(cls, (o["id"], o["n"]), nontrivial=(o["err"] == ""),
                   sample={"configuration": cfgs[o["id"]]["class"], "target": o["target"], "iface": o["iface"],
                           "srcip": o["srcip"], "srcmac": o["srcmac"], "entry": o["entry"], "err": o["err"],
@@ -375,7 +385,7 @@ def run(ctx):
                 nbroken += 1
                 if nbroken <= 8:
                     ctx.broken.append(("correspondence: configuration %d case %d (%s, target %s, flags %s): %s" % (
-                        o["id"], o["n"], ENTRY[o["entry"]], o["target"] or "none",
+                        o["id"], o["n"], entry_name(o), o["target"] or "none",
                         flags_of(o), "; ".join(CODES[c] for c in codes)), json.dumps(o)[:700]))
             ctx.cov["traces_validated_against_impl"] += len(flat)
         if nbroken > 8:
@@ -413,7 +423,7 @@ def replay(ctx, path):
         res = spec_on_impl(cfgs[o["id"]], o)
         print("replay configuration %d, target %s, --iface %s --srcip %s --srcmac %s (%s):" % (
             o["id"], o["target"] or "none", o["iface"] or "-", o["srcip"] or "-", o["srcmac"] or "-",
-            ENTRY[o["entry"]]))
+            entry_name(o)))
         print("  observed: err=%r iface=%s srcip=%s srcmac=%s vpn=%s %s" % (
             o["err"], o["ifname"], o["srcip_out"], o["srcmac_out"], o["vpn"], json.dumps(o.get("wire") or "")))
         print("  " + (res[1] if res else "property holds on this input"))
